@@ -2010,6 +2010,21 @@ return 1;""",
         else:
             spointer = ast.get_indirect_stmt()
             stmts = ["py", sgroup, spointer, "result"]
+            if sgroup == "shadow" and ast.attrs["owner"] == "caller" \
+               and ast.is_pointer():
+                # The Python object owns the instance and releases it.
+                capsule_type = result_typemap.cxx_type + " *"
+                free_pattern = ast.attrs["free_pattern"]
+                if free_pattern is not None:
+                    fmt_result.capsule_order = self.add_capsule_code(
+                        free_pattern, [self.patterns[free_pattern]])
+                else:
+                    fmt_result.capsule_order = self.add_capsule_code(
+                        self.language + " " + capsule_type, [
+                            "{} cxx_ptr =\t static_cast<{}>(ptr);".format(
+                                capsule_type, capsule_type),
+                            "delete cxx_ptr;",
+                        ])
         if stmts is not None:
             result_blk = lookup_stmts(stmts)
             # Useful for debugging.  Requested and found path.
@@ -4570,6 +4585,7 @@ py_statements = [
             "\t PyObject_New({PyObject}, &{PyTypeObject});",
             "if ({py_var} == {nullptr}) goto fail;",
             "{py_var}->{PY_type_obj} = {cxx_addr}{cxx_var};",
+            "{py_var}->{PY_type_dtor} = {capsule_order};",
         ],
         object_created=True,
 #            post_call_capsule=[
@@ -4590,6 +4606,7 @@ py_statements = [
             "\t PyObject_New({PyObject}, &{PyTypeObject});",
 #                "if ({py_var} == {nullptr}) goto fail;",
             "{py_var}->{PY_type_obj} = {cxx_addr}{cxx_var};",
+            "{py_var}->{PY_type_dtor} = {capsule_order};",
         ],
         object_created=True,
 #            post_call_capsule=[
